@@ -5,7 +5,7 @@
   and when it has no answer fall back to the authoritative source
     * `ParentsProvider.get_parents` / `_collect_ancestors`:  `commit_graph.get_parents(e)`, `None` ⇒ read the commit;
     * `DiskObjectStore.get_raw`: MIDX `object_offset`, `None` / missing pack ⇒ per-pack lookup;
-    * `DiskObjectStore.contains_packed`: `sha in midx` ⇒ True (NO check that the named pack exists), else per-pack;
+    * `DiskObjectStore.contains_packed`: MIDX entry + the named pack has the object ⇒ True, else per-pack;
     * `RefsContainer.read_ref`: loose file first, packed-refs when there is no loose file.
   Core Lean only.
 -/
@@ -22,6 +22,22 @@ def withCache {κ ν : Type} (c : κ → Option ν) (base : κ → ν) : κ → 
 /-- A cache is *sound* for `base` when every entry it has is the answer `base` would give. -/
 def Sound {κ ν : Type} (c : κ → Option ν) (base : κ → ν) : Prop :=
   ∀ k v, c k = some v → base k = v
+
+/-! ### commit-graph consumers and staleness -/
+
+/-- `ParentsProvider.get_parents` / `_collect_ancestors`: graph first, commit object otherwise
+(`store k = none` ⇔ the commit is not in the object store ⇒ `KeyError`) -/
+def parentsVia {Oid : Type} (g : Oid → Option (List Oid)) (store : Oid → Option (List Oid)) :
+    Oid → Option (List Oid) := withCache (fun k => (g k).map some) store
+
+/-- Commits are immutable (content addressed): a repository evolves by adding and pruning objects, never by
+changing one. -/
+def Evolves {Oid : Type} (s0 s1 : Oid → Option (List Oid)) : Prop :=
+  ∀ k v, s0 k = some v → s1 k = some v ∨ s1 k = none
+
+/-- diamond history used by the negation witnesses: 0 ← 1 ← 2, 0 ← 3, 4 = merge(2, 3) -/
+def diamond : Nat → List Nat
+  | 1 => [0] | 2 => [1] | 3 => [0] | 4 => [2, 3] | _ => []
 
 /-! ### refs: loose files over packed-refs (`RefsContainer.read_ref`) -/
 
@@ -59,9 +75,17 @@ def getRawVia {Oid Pack Obj : Type} (midx : Oid → Option Pack) (packGet : Pack
         | none => base o)
     | none => base o
 
-/-- `contains_packed` as coded: `midx is not None and sha in midx` answers True without looking at the
-pack the entry names. -/
-def containsVia {Oid Pack : Type} (midx : Oid → Option Pack) (base : Oid → Bool) : Oid → Bool :=
+/-- `contains_packed`: a MIDX entry is believed only if the pack it names still exists and has the object
+(`sha in self._get_pack_by_name(name)`; `KeyError` / `PackFileDisappeared` ⇒ per-pack lookup), as in `get_raw`. -/
+def containsVia {Oid Pack : Type} (midx : Oid → Option Pack) (packHas : Pack → Oid → Bool)
+    (base : Oid → Bool) : Oid → Bool :=
+  fun o => match midx o with
+    | some p => if packHas p o then true else base o
+    | none => base o
+
+/-- `contains_packed` BEFORE the repair: `midx is not None and sha in midx` answered True without looking at
+the pack the entry names.  Kept for the regression witness. -/
+def containsViaOld {Oid Pack : Type} (midx : Oid → Option Pack) (base : Oid → Bool) : Oid → Bool :=
   fun o => match midx o with
     | some _ => true
     | none => base o
